@@ -176,7 +176,7 @@ func c08Dims() c08GridDims {
 			u32s: []uint32{0, 1, 0x7fffffff, 0x80000000, 0x80000001, 0xffffffff},
 			sids: []uint32{0, 1, 0x7fffffff, 0x80000001}, nfill: 3, sweepTo: 8, allPads: true}
 	}
-	return c08GridDims{maxLen: 14, undef: []byte{0, 0xd2},
+	return c08GridDims{maxLen: 12, undef: []byte{0, 0xd2},
 		prio: [][2]uint32{{0, 0}, {0x80000001, 255}, {0xffffffff, 16}},
 		u32s: []uint32{0, 1, 0x7fffffff, 0x80000000, 0x80000001, 0xffffffff},
 		sids: []uint32{0, 1, 0x80000001}, nfill: 2, sweepTo: 10}
